@@ -20,10 +20,10 @@ _ORG_OFFSET_CACHE = {}
 
 
 def _ev(k, name="", el=0, tag="", raised=False, pos=0, outcome="", status="", out_real=True, err_real=True,
-        vis=None, lvl=0, mine=True, cid=0, undefined=False, n=0, att=0):
+        vis=None, lvl=0, mine=True, cid=0, undefined=False, n=0, att=0, nfor=0):
     return {"k": k, "name": name, "el": el, "tag": tag, "raised": bool(raised), "pos": pos, "outcome": outcome,
             "status": status, "out_real": bool(out_real), "err_real": bool(err_real),
-            "vis": vis or [0, 0, 0, 0, 0], "lvl": lvl, "mine": bool(mine), "cid": cid, "undefined": bool(undefined), "n": n, "att": att}
+            "vis": vis or [0, 0, 0, 0, 0], "lvl": lvl, "mine": bool(mine), "cid": cid, "undefined": bool(undefined), "n": n, "att": att, "nfor": nfor}
 
 
 class _MarkHandler(logging.Handler):
@@ -86,7 +86,7 @@ def run_case(case, reports=False, keep_objects=False):
             except Exception:
                 vis.append(-1)
         return {"out_real": sys.stdout is REAL_OUT, "err_real": sys.stderr is REAL_ERR, "vis": vis,
-                "lvl": root.level, "mine": mark in root.handlers}
+                "lvl": root.level, "mine": mark in root.handlers, "nfor": len([h for h in root.handlers if h is not mark])}
 
     def steps_of(sid):
         return elems[sid - 1]["steps"]
@@ -179,6 +179,9 @@ def run_case(case, reports=False, keep_objects=False):
             events.append(_ev("step", el=sid, pos=pos, outcome=o, att=att, **probe(ctx)))
             print("O%d_%d" % (sid, pos))
             print("E%d_%d" % (sid, pos), file=sys.stderr)
+            if cfg.get("chatty") and pos == 1:
+                for _i in range(1001):          # more records than the capture handler's nominal capacity
+                    logging.getLogger("verif.filler").warning("filler %d", _i)
             logging.getLogger("verif").warning("L%d_%d", sid, pos)
             ctx.sv = sid
             if s["cl_id"]:
@@ -266,6 +269,25 @@ def run_case(case, reports=False, keep_objects=False):
                     elif not isinstance(getattr(sc, "parent", None), ScenarioOutline):
                         counted(sc)
                         patch_scenario_with_autoretry(sc, max_attempts=2)
+        recording = [True]
+        if case.get("prerun"):
+            # history: the same model objects are run once before (everything selected, nothing fails by hooks),
+            # then reset with the public reset_model(); the recorded run must depend on the latest run only
+            from behave.model import reset_model
+            recording[0] = False
+            pre_events = len(events)
+            pre_cfg = Configuration(command_args=["-f", "rec", "-o", os.devnull, "--no-summary"], load_config=False)
+            pre_runner = ModelRunner(pre_cfg, feats, step_registry=reg)
+            pre_runner.hooks = {}
+            pre_runner.formatters = make_formatters(pre_cfg, pre_cfg.outputs)
+            try:
+                pre_runner.run()
+            except BaseException:       # noqa
+                pass
+            del events[pre_events:]
+            attempts.clear()
+            reset_model(feats)
+            recording[0] = True
         runner = ModelRunner(config, feats, step_registry=reg)
 
         def tag_owner(ctx):
